@@ -26,6 +26,8 @@ def run (j : Json) : Except String Json := do
         | .arr #[n, .str t] => do return ((← n.getNat?), t.toList)
         | _ => throw "bad error entry")
     | _ => throw "errors missing")
+  if evs.isEmpty then
+    return Json.mkObj [("skip", true), ("why", "the evaluation did not fail: no trace")]
   let rootError ← j.getObjValAs? Nat "root_error"
   let width ← j.getObjValAs? Nat "width"
   let impl ← (← j.getObjVal? "impl").getObjValAs? String "trace"
@@ -37,7 +39,7 @@ def run (j : Json) : Except String Json := do
   let chained := fs.toList.any (·.noPy)
   let holds := checkC05 evs errText rootError impl
   let modelHolds := checkC05 evs errText rootError model
-  return Json.mkObj [("agree", model == impl), ("holds", holds), ("model_holds", modelHolds),
+  return Json.mkObj [("agree", model == impl), ("holds", holds), ("model_holds", modelHolds), ("clauses", toJson (clausesC05 evs errText rootError impl)),
     ("why", if holds then "" else "the trace does not begin with the root target / list the failing path in order / show the failing spec's target / show every failed branch"),
     ("model", Json.mkObj [("trace", model)]),
     ("branch", (if branching then "branching" else "linear") ++ (if chained then "+chain" else "") ++
